@@ -841,9 +841,15 @@ impl VirtualFileSystem for Memfs {
     /// assert_vfs_read_all!(vfs, &file, "foobar 1foobar 2");
     /// ```
     fn append_all<T: AsRef<Path>, U: AsRef<[u8]>>(&self, path: T, data: U) -> RvResult<()> {
-        let mut f = self.append(path)?;
-        f.write_all(data.as_ref())?;
-        f.flush()?;
+        // Create the file if needed and extend its data under a single write guard so that the
+        // whole operation is atomic with respect to other threads
+        let mut guard = self.write_guard();
+        let path = self._abs(&guard, path)?;
+        self._add(&mut guard, MemfsEntry::opts(&path).file().build())?;
+        match guard.get_file_mut(&path) {
+            Some(file) => file.data.extend_from_slice(data.as_ref()),
+            None => return Err(PathError::does_not_exist(path).into()),
+        }
         Ok(())
     }
 
@@ -2126,8 +2132,15 @@ impl VirtualFileSystem for Memfs {
     /// assert_vfs_read_all!(vfs, &file, "foobar 1".to_string());
     /// ```
     fn write_all<T: AsRef<Path>, U: AsRef<[u8]>>(&self, path: T, data: U) -> RvResult<()> {
-        let mut f = self.write(path)?;
-        f.write_all(data.as_ref())?;
+        // Create the file if needed and replace its data under a single write guard so that the
+        // whole operation is atomic with respect to other threads
+        let mut guard = self.write_guard();
+        let path = self._abs(&guard, path)?;
+        self._add(&mut guard, MemfsEntry::opts(&path).file().build())?;
+        match guard.get_file_mut(&path) {
+            Some(file) => file.data = data.as_ref().to_vec(),
+            None => return Err(PathError::does_not_exist(path).into()),
+        }
         Ok(())
     }
 
